@@ -154,7 +154,7 @@ func spec_exposerOf(s Snippet) *pkgExposer { x, _ := s.(*pkgExposer); return x }
 //@   ensures result == (i.typeName == nil)
 
 //@ func Block.Frag
-//@   props C09 C01 C04 C03
+//@   props C09 C01 C04:frame C03
 //@   lit 1 ordered
 //@   lit 1 yields string(v)
 
@@ -173,14 +173,14 @@ func spec_renderAll(cs []Snippet, ctx context.Context, n int) string {
 }
 
 //@ func Snippets.Frag
-//@   props C09 C01 C04 C03
+//@   props C09 C01 C04:frame C03
 //@   lit 1 ordered
 //@   lit 1 yields spec_renderAll(spec_yielded(f), ctx, len(spec_yielded(f)))
 //@   loop 1 invariant !stopped && outText == spec_renderAll(ys1, ctx, it1)
 //@   loop 2 invariant !stopped && outText == spec_renderAll(ys1, ctx, it1) + spec_concatN(ys2, it2)
 
 //@ func fn.Frag
-//@   props C09 C04 C01 C03
+//@   props C09 C04:frame C01 C03
 //@   lit 1 ordered
 //@   requires f != nil
 //@   lit 1 nopanic
@@ -260,7 +260,7 @@ func spec_args(t *template) map[string]Snippet {
 func spec_src(t *template) []rune { return []rune(strings.TrimLeft(t.format, "\n")) }
 
 //@ func template.Frag
-//@   props C09 C01 C04 C03
+//@   props C09 C01 C04:frame C03
 //@   lit 1 ordered
 //@   requires t != nil
 //@   lit 1 yields spec_tmpl(old(spec_src(t)), 0, old(spec_args(t)), ctx)
@@ -282,7 +282,7 @@ func spec_src(t *template) []rune { return []rune(strings.TrimLeft(t.format, "\n
 // ---- Sprintf(format, args...) (C09) ----
 
 //@ func pkgExposer.Frag
-//@   props C05 C09 C04 C01 C03
+//@   props C05 C09 C04:frame C01 C03
 //@   lit 1 ordered
 //@   requires i != nil
 //@   assigns *
@@ -290,7 +290,7 @@ func spec_src(t *template) []rune { return []rune(strings.TrimLeft(t.format, "\n
 //@   note frame, proved on the returned iterator literal too: rendering a PkgExpose snippet stores nothing into ANY snippet value - in particular it keeps no memo of the name it resolved (a snippet value rendered into two generated files must consult each file's own import table: C05)
 
 //@ func ident.Frag
-//@   props C03 C05 C09 C04 C15 C01
+//@   props C03 C05:frame C09 C04:frame C15 C01
 //@   requires i != nil
 //@   assigns *
 //@   preserves pkg/gengo/snippet. pkg/gengo/internal.
@@ -303,7 +303,7 @@ func spec_src(t *template) []rune { return []rune(strings.TrimLeft(t.format, "\n
 //@   note frame, proved on the returned iterator literal too: rendering an identifier stores nothing into ANY snippet value (no memo of a resolved name: a snippet value rendered into two files consults each file's own import table, C05) and runs no user code in map order. References given as text go through ParseRef (one split point for the whole naming system, C15/C03); WHAT the namer answers for the parsed reference is the contract of rawNamer.Name. An unsupported operand panics (stated, not excluded).
 
 //@ func value.Frag
-//@   props C05 C09 C04 C01 C03
+//@   props C05:frame C09 C04:frame C01 C03
 //@   requires v != nil
 //@   assigns *
 //@   effects
@@ -375,7 +375,7 @@ func spec_spfPanics(R []rune, i int, k int, args []any) bool {
 }
 
 //@ func printer.Frag
-//@   props C09 C01 C04 C03
+//@   props C09 C01 C04:frame C03
 //@   lit 1 ordered
 //@   requires p != nil
 //@   lit 1 yields spec_spf(old([]rune(p.fmt)), 0, 0, old(p.args), ctx)
@@ -411,7 +411,7 @@ func spec_comment(v string) string {
 }
 
 //@ func Comment
-//@   props C09 C04 C01
+//@   props C09 C04:frame C01
 //@   lit 2 ordered
 //@   lit 2 yields spec_comment(v)
 //@   loop 1 invariant !stopped && outText == spec_commentLines(xs1, it1)
@@ -435,7 +435,7 @@ func spec_directive(directive string, args []string) string {
 }
 
 //@ func GoDirective
-//@   props C09 C04 C01
+//@   props C09 C04:frame C01
 //@   lit 2 ordered
 //@   lit 2 yields spec_directive(directive, args)
 //@   loop 1 invariant !stopped && outText == "//go:" + directive + spec_directiveArgs(args, it1)
